@@ -348,6 +348,31 @@ class ContainerEngine:
             last_user[lk] = dict(op["user"], _variant=op["variant"])
             op["user"] = {k: v for k, v in op["user"].items()
                           if not k.startswith("_")}
+            if rng.random() < 0.45 and len(ops) < nops - 1 \
+                    and "fault" not in op:
+                # directly afterwards the same curve and fit again; which
+                # user fields differ rotates with the run index so that
+                # every batch meets every kind of re-save
+                kinds = ["name", "rate_float", "comment", "rate", "none",
+                         "all", "rate_float", "name"]
+                kind = kinds[(index + len(ops)) % len(kinds)]
+                ops.append(op)
+                op2 = copy.deepcopy(op)
+                u = op2["user"]
+                if kind in ("name", "all"):
+                    u["name"] = rng.choice([n for n in NAMES
+                                            if n != u["name"]])
+                if kind in ("comment", "all"):
+                    u["comment"] = rng.choice([c for c in COMMENTS
+                                               if c != u["comment"]])
+                if kind in ("rate", "all"):
+                    u["rate"] = (int(u["rate"]) + 3) % 11
+                if kind == "rate_float":
+                    op["user"]["rate"] = rng.randint(0, 10)
+                    u["rate"] = rng.choice([7.5, 0.5, 9.25])
+                op2["dt"] = 2.0
+                last_user[lk] = dict(u, _variant=op2["variant"])
+                op = op2
             if sampled_faults and rng.random() < 0.3:
                 op["fault"] = {"seam": "h5write", "at": rng.randint(1, 47),
                                "exc": rng.choice(["ENOSPC", "EIO",
